@@ -284,8 +284,13 @@ impl Scenario for X25519Hs {
 
 // ------------------------------------------------------------------ arithprog
 
-/// longest chain of additions / subtractions / negations without an intervening multiplication
-pub const MAX_CHAIN: u8 = 8;
+/// Longest chain of additions / subtractions / negations without an intervening multiplication: depth 2 = three terms.
+/// The 32-bit limb code (ref10) documents its operand bounds in source comments: sums of up to three reduced elements
+/// (1.65 * 2^26 per limb) are what its multiplication accepts, and its `to_bytes` computes `19 * h9` in an i32, which
+/// overflows from about 3.4 terms on. Longer chains are outside the 32-bit backend's operand domain: a divergence there is
+/// an artefact, not a defect (a first version allowed 8 terms; the thorough tier then reported exactly such an artefact
+/// on the unchanged tree - `((x + (p - x)) * 4).to_bytes()` - which was a false alarm and is why the bound is 2).
+pub const MAX_CHAIN: u8 = 2;
 
 pub const A_FE_LOAD: u8 = 0; // h = dst reg, arg = special selector, seed
 pub const A_FE_ADD: u8 = 1; // h = dst, off = src1 | src2<<3
@@ -381,7 +386,7 @@ impl Scenario for ArithProg {
                 26 => {
                     // a longer sum: dst = r0 +- r1 +- r2 ... over reduced registers, then observed and compared
                     if dst != s1 {
-                        let terms = rng.range(3, MAX_CHAIN as u64 - 1) as u8;
+                        let terms = rng.range(1, MAX_CHAIN as u64) as u8;
                         let mut d = depth[s1 as usize];
                         let mut cur = s1;
                         for _ in 0..terms {
